@@ -180,6 +180,7 @@ class Ctx:
                 "per_rule": per_rule,
                 "configurations": facts.BUILD_LOG,
                 "functions_analysed": len(self.analysed["functions"]),
+                "function_paths_analysed": sorted(set(p for (_c, p) in self.analysed["functions"])),
                 "blocks_analysed": self.analysed["blocks"],
                 "call_sites_analysed": self.analysed["call_sites"],
                 "known_findings": [{"key": o.full_key(), "what": w} for o, w in kf],
